@@ -843,6 +843,93 @@ def cas1_name(ctx, c):
         c.ok("append_name:bytes:name", "8 name bytes and their sum for 7 names in a row", where)
 
 
+def cas1_sizeguard(ctx, c):
+    """no file of a representable length (0..65535 bytes) is refused by the tape writer; nor is a short buffer refused by the reader as 'too short to hold a file'"""
+    import copy
+    from ..consteval import fold as _fsg, NotConst as _Nsg
+    repo = ctx.repo
+    C = repo.cls(CLS)
+
+    class _LenSub(ast.NodeTransformer):
+        def visit_Call(self, node):
+            self.generic_visit(node)
+            if U(node.func) == "len" and node.args and re.search(r"\.data$|\.buffer$|^self\.buffer$", U(node.args[0])):
+                return ast.copy_location(ast.Name(id="__len", ctx=ast.Load()), node)
+            return node
+    for mname, lens, what in (("add_file", (0, 1, 255, 65534, 65535), "a file of %d bytes is refused"), ("add_files", (0, 1, 255, 65534, 65535), "a file of %d bytes is refused"),
+                              ("list_files", (27, 100, 300, 538), "a tape stream of %d bytes is not scanned")):
+        f = C.methods.get(mname)
+        if f is None:
+            continue
+        for n in ast.walk(f.node):
+            if isinstance(n, ast.If) and n.body and isinstance(n.body[-1], (ast.Raise, ast.Return)) and "len(" in U(n.test):
+                names = {x.id for x in ast.walk(n.test) if isinstance(x, ast.Name)} - {"len"}
+                t2 = _LenSub().visit(copy.deepcopy(n.test))
+                try:
+                    hit = [L for L in lens if _fsg(t2, dict(ctx.env, __len=L))]
+                except _Nsg:
+                    continue
+                if hit:
+                    c.finding("%s:size:length" % mname, what % hit[-1] + " (%s)" % U(n.test)[:40],
+                              "CassetteFile.%s stops when `%s`, which holds for a length of %d: %s" % (mname, U(n.test)[:60], hit[-1],
+                              "a tape file may be 0..65535 bytes long" if mname != "list_files" else "leaders may have any length, so a well-formed stream holding small files can be that short"),
+                              repo.loc(f, n))
+
+
+def cas1_gaps(ctx, c):
+    """the name-file block says 'no gaps' (flag 00) and the block writer's own recursion does not carry a gap request on: nobody asks for gaps"""
+    repo = ctx.repo
+    C = repo.cls(CLS)
+    ad = C.methods.get("append_data_blocks")
+    if ad is None:
+        return
+    params = [p_ for p_ in ad.params if p_ != "self"]
+    gp = next((p_ for p_ in params if "gap" in p_.lower()), None)
+    if gp is None:
+        return
+    pos = params.index(gp)
+    rec = [x for x in ast.walk(ad.node) if isinstance(x, ast.Call) and U(x.func).endswith("append_data_blocks")]
+    carries = all(len(x.args) > pos or any(k.arg == gp for k in x.keywords) for x in rec) if rec else True
+    asked = []
+    for f in repo.all_funcs():
+        if f is ad:
+            continue
+        for x in ast.walk(f.node):
+            if isinstance(x, ast.Call) and isinstance(x.func, ast.Attribute) and x.func.attr == "append_data_blocks":
+                a_ = x.args[pos] if len(x.args) > pos else next((k.value for k in x.keywords if k.arg == gp), None)
+                if a_ is not None and try_fold(a_, ctx.env, default="?") is not False:
+                    asked.append((f, x, a_))
+    if asked and not carries:
+        f_, x_, a_ = asked[0]
+        c.finding("append_data_blocks:gaps:continuation", "%s asks for gaps (%s) but the writer's recursion drops the request" % (f_.q, U(a_)[:30]),
+                  "%s calls append_data_blocks with %s=%s, and append_data_blocks calls itself for the rest of the data without it: only the first block boundary gets a blank and a leader, "
+                  "while the name-file block written before it carries the gap flag 00 - the stream is neither a gapped nor an ungapped file" % (f_.q, gp, U(a_)[:40]), repo.loc(f_, x_))
+    else:
+        c.ok("append_data_blocks:gaps:continuation", "no caller asks for gaps" if not asked else "the request is carried through the recursion", repo.loc(ad, ad.node))
+
+
+def cas1_enum(ctx, c):
+    """the writer stores whatever type and flags a file has: converting a field through an Enum class raises ValueError for every value the class has no member for"""
+    repo = ctx.repo
+    C = repo.cls(CLS)
+    for f in C.methods.values():
+        if not f.name.startswith(("append_", "add_")):
+            continue
+        for x in ast.walk(f.node):
+            if isinstance(x, ast.Call) and isinstance(x.func, ast.Name) and x.func.id in repo.classes and len(x.args) == 1 and re.search(r"\.(type|data_type|gaps)\.int$", U(x.args[0])):
+                E = repo.classes[x.func.id]
+                if not any(b_.split(".")[-1] in ("Enum", "IntEnum") for b_ in E.bases):
+                    continue
+                members = {try_fold(v_, ctx.env) for v_ in E.assigns.values()}
+                domain = (0, 1, 2, 3) if re.search(r"(?<!data_)type\.int$", U(x.args[0])) else (0, 0xFF)
+                missing = [v_ for v_ in domain if v_ not in members]
+                if missing:
+                    c.finding("%s:enum-conversion:fields" % f.name, "%s(%s) has no member for %s" % (x.func.id, U(x.args[0])[:30], ", ".join("%#04x" % v_ for v_ in missing)),
+                              "CassetteFile.%s converts `%s` through %s, whose members are %s: a file whose field is %s (file type 3 is text, which the disk side and CoCoFile know) raises "
+                              "ValueError while the tape is being written" % (f.name, U(x.args[0])[:40], x.func.id, sorted(m_ for m_ in members if isinstance(m_, int)), ", ".join(str(v_) for v_ in missing)),
+                              repo.loc(f, x))
+
+
 def cas1_whole(ctx, c):
     """CassetteFile.add_file evaluated in the length domain: the data handed to append_data_blocks, over all calls, is the file's data once, in order."""
     from ..concrete import Seq, Obj, Desc, run_concrete
@@ -897,7 +984,7 @@ def cas1_whole(ctx, c):
         c.ok("add_file:whole:data", "the data is handed to the block writer once, in order (10 lengths)", where)
 
 
-RULES = {"CAS-1": (lambda ctx, c: (cas1(ctx, c), cas1_whole(ctx, c), cas1_addr(ctx, c), cas1_literals(ctx, c), cas1_name(ctx, c))), "CAS-4": cas4, "CAS-6": cas6b}
+RULES = {"CAS-1": (lambda ctx, c: (cas1(ctx, c), cas1_whole(ctx, c), cas1_addr(ctx, c), cas1_literals(ctx, c), cas1_name(ctx, c), cas1_sizeguard(ctx, c), cas1_gaps(ctx, c), cas1_enum(ctx, c))), "CAS-4": cas4, "CAS-6": cas6b}
 
 
 # ---------------------------------------------------------------------------------------------------
